@@ -4,6 +4,7 @@ import (
 	"bytes"
 	"fmt"
 	"os"
+	"strings"
 
 	"github.com/karino2/folang/pkg/dict"
 	"github.com/karino2/folang/pkg/frt"
@@ -50,6 +51,22 @@ var keywordMap = map[string]TokenType{
 	"elif":         New_TokenType_ELIF,
 	"not":          New_TokenType_NOT,
 	"fun":          New_TokenType_FUN,
+}
+
+// Go keywords that are ordinary identifiers in Folang.
+// They can't be emitted as they are: such an identifier gets a trailing underscore.
+var goOnlyKeywords = map[string]bool{
+	"break": true, "case": true, "chan": true, "const": true, "continue": true,
+	"default": true, "defer": true, "fallthrough": true, "for": true, "func": true,
+	"go": true, "goto": true, "interface": true, "map": true, "range": true,
+	"return": true, "select": true, "struct": true, "switch": true, "var": true,
+}
+
+func goSafeIdentifier(name string) string {
+	if goOnlyKeywords[name] {
+		return name + "_"
+	}
+	return name
 }
 
 func newToken(ttype TokenType, begin int, len int) Token {
@@ -276,6 +293,8 @@ func scanTokenAt(buf string, pos int) Token {
 		// check whether identifier is keyword
 		if tt, ok := keywordMap[cur.stringVal]; ok {
 			cur.ttype = tt
+		} else {
+			cur.stringVal = goSafeIdentifier(cur.stringVal)
 		}
 		return cur
 	case isNumber(b):
@@ -708,7 +727,12 @@ func ParseSInterP(buf string) frt.Tuple2[string, []string] {
 				}
 			}
 			vend := i
-			vars = append(vars, buf[vbeg:vend])
+			// the hole is pasted as Go argument: use the same names as the identifier tokens.
+			segs := strings.Split(buf[vbeg:vend], ".")
+			for si, seg := range segs {
+				segs[si] = goSafeIdentifier(seg)
+			}
+			vars = append(vars, strings.Join(segs, "."))
 			res.WriteString("%s")
 		} else {
 			res.WriteByte(c)
